@@ -201,7 +201,32 @@ func c15Prop(st *CaseStats) func(t *rapid.T) {
 			si := rapid.IntRange(0, nSeg-1).Draw(t, "seg")
 			c := cases[si]
 			var err error
-			switch rapid.IntRange(0, 11).Draw(t, "action") {
+			switch rapid.IntRange(0, 12).Draw(t, "action") {
+			case 12: // statistics of present and absent fields used as Merge receivers; an empty DocsMatchingTerms result modified
+				hist += fmt.Sprintf(" statsMerge+emptyDocs(seg%d)", si)
+				err = safely("stats merge", func() error {
+					for _, f := range []string{UnknownField, rapid.SampledFrom(ProbeFields).Draw(t, "statsField")} {
+						x, err := c.Seg.CollectionStats(f)
+						if err != nil {
+							return err
+						}
+						x.Merge(&oneDocStats{})
+						other, err := cases[(si+1)%nSeg].Seg.CollectionStats("_id")
+						if err != nil {
+							return err
+						}
+						x.Merge(other)
+					}
+					bm, err := c.Seg.DocsMatchingTerms(nil)
+					if err != nil {
+						return err
+					}
+					if bm != nil {
+						bm.Add(3)
+						bm.Add(900000)
+					}
+					return nil
+				})
 			case 10, 11: // a merge / persist whose destination fails at a drawn offset
 				k := rapid.SampledFrom([]int{0, 1, 5, 16, 40, 100, 300, 1000}).Draw(t, "failAt") + rapid.IntRange(0, 15).Draw(t, "failAtJitter")
 				if rapid.Bool().Draw(t, "failedMerge") {
